@@ -5,16 +5,8 @@ ALL = ['C%02d' % k for k in range(1, 21)]
 
 CLAIMED = {
  'C01': dict(
-   text='Lean 4 theorems (18, kernel-checked, standard axioms only) about a hand-written executable model of '
-        'read_laminaprop / Lamina.rebuild / read_stack / calc_constitutive_matrix: rotQ is tensor rotation (energy '
-        'identity for all c,s), A/B/D are the interval integrals of weights 1,z,z^2 (real analysis), symmetry, positive '
-        'definiteness for every non-empty admissible stack, offset shift, B=0 for palindromic stacks, permutation '
-        'invariance of A, mirror and 90-degree laws, uniform = per-ply form - for ALL ply lists; the model is tied to the '
-        'running Python by a differential correspondence check on generated stacks (model run at Q on the exact float '
-        'inputs), with an independent tensor-rotation/Gauss oracle as failing-input search.',
-   note='Trusted: Lean kernel, Mathlib, the hand model (tied by correspondence on the explored inputs only), numpy '
-        'cos/sin/deg2rad, IEEE rounding not modelled (1e-9 block-relative tolerance). MatLamina.rebuild invariants and '
-        'lamination-parameter route are outside C01.',
+   text='Lean 4 theorems (47, kernel-checked, standard axioms only) about a hand-written executable model of read_laminaprop / Lamina.rebuild / MatLamina.rebuild / read_stack and the whole Laminate object (calc_constitutive_matrix, calc_lamination_parameters, calc_ABDE_from_lamination_parameters, read_lamination_parameters, force_balanced_LP, force_symmetric_LP, force_orthotropic, force_symmetric, calc_equivalent_modulus; 29 theorems: invariants identity, lamination-parameter round trip with its exact failure terms and four refutations, what every force_* zeroes and that positive definiteness survives, equivalent moduli): rotQ is tensor rotation (energy identity for all c,s), A/B/D are the interval integrals of weights 1,z,z^2 (real analysis), symmetry, positive definiteness for every non-empty admissible stack, offset shift, B=0 for palindromic stacks, permutation invariance of A, mirror and 90-degree laws, uniform = per-ply form - for ALL ply lists; the model is tied to the running Python by a differential correspondence check on generated stacks (model run at Q on the exact float inputs), with an independent tensor-rotation/Gauss oracle as failing-input search.',
+   note='Trusted: Lean kernel, Mathlib, the hand model (tied by correspondence on the explored inputs only), numpy cos/sin/deg2rad, IEEE rounding not modelled (1e-9 block-relative tolerance for read_stack, 1e-12 for the object stream), np.linalg.inv (a parameter of the model of calc_equivalent_modulus). Four known findings on the lamination-parameter route (known_findings.json C01-lp-*).',
    technique='Lean 4 proof over hand model + differential correspondence (model at Q vs Python)', ref='4/C01'),
  'C02': dict(
    text='The Lean model of every analytic stiffness kernel (fk0, fk0y1y2 of plate, plate_w, cpanel, kpanel) is REGENERATED '
